@@ -1,4 +1,5 @@
 import Rbdl
+import Rbdl.AlgDriver
 /-
   Line-protocol driver of the executable model (`rbdl_model`): reads the same case file as the
   C++ harness (`harness/driver.cc`) from stdin, executes every operation over exact rationals
@@ -507,6 +508,10 @@ def step (d : DS) (line : String) : DS × Option String :=
       match k.toNat? with
       | none => (d, none)
       | some n => let (l, _) := t.svs n; ({ d with fext := some (fun i => l.getD i SV.zero) }, none)
+    | "alg" =>
+      let op := rest.headD ""
+      let args := (rest.drop 1).map (fun s => (parseRat s).getD 0)
+      let (d, s) := out d ("alg." ++ op) (AlgDriver.run op args); (d, some s)
     | "poison" =>
       let (seed, _) := t.nat
       ({ d with w := poison d.m d.w seed }, none)
